@@ -7,6 +7,8 @@ from . import runner
 
 
 def main():
+  import logging
+  logging.disable(logging.CRITICAL)   # ttconv logs every merge / default end; not part of the verdict
   ap = argparse.ArgumentParser()
   ap.add_argument("prop")
   ap.add_argument("--tier", default=os.environ.get("VERIF_TIER", "quick"), choices=["quick", "thorough"])
